@@ -740,6 +740,8 @@ def run(F, rep, tier):
     from . import c08
     rep.attempt(c08.rule_r4, F, rep)      # the ordering primitive the sort/set walks pop their `Ordering` from: array state machines
     rep.attempt(c08.rule_r4b, F, rep)
+    from . import c01
+    rep.attempt(c01.rule_r7, F, rep)      # shared stacks are popped from the top only (nested sorts)
     rep.assume("permutation, orderedness and set algebra over values are not decided (value-level); the comparison "
                "itself is C08; spurious stack-overflow of the key loops is C10")
     return EXPLANATION
